@@ -32,6 +32,8 @@ def gen(seed, tier):
         nonlocal n
         pre = [g.any_frame(r.choice(ICAOS)) for _ in range(r.randint(0, 3))]
         o = {"U": 1} if r.random() < 0.5 else {}
+        if r.random() < 0.2:
+            o["M"] = r.choice(["17", "11", "18", "11+17+18", "4"])      # message logging is no way around the parity gate
         # the corrupted frame arrives 3 s later: if it were applied, the last-contact age would restart
         cases.append(H("C04-%d" % n, o, [seg(0, pre + [base]), seg(3000, [bad])]))
         n += 1
@@ -92,6 +94,21 @@ def gen(seed, tier):
             good = with_parity_pi((df << 83) | (5 << 80) | (a << 56) | (r.choice([0, 0x58, 0x99]) << 48), 112)
             for b in (25, 30, 40):
                 hist(hx(good, 112), hx(good ^ (1 << r.randint(b - 1, b + 6)), 112))
+    # valid squitters whose parity field is all zeros (data bits a multiple of the generator), and their corruptions
+    for df in (17, 18, 11):
+        for k in range(2 if tier == "quick" else 20):
+            fhex, nb, a = crc_zero_frame(r, df)
+            v = int(fhex, 16)
+            for bad in (v ^ (1 << r.randint(24, nb - 6)), v ^ (1 << r.randint(7, 23)), v ^ (a & 0xFFFFFF), v ^ 0xFFFFFF):
+                if bad != v and not (nb == 56 and (bad ^ v) < 128):
+                    hist(fhex, hx(bad, nb))
+    # a remainder equal to the frame's own address (the overlay the address/parity formats use) is still a failing parity
+    for _ in range(6 if tier == "quick" else 60):
+        f, nb = valid_squitter(g)
+        v = int(f, 16)
+        a = (v >> (nb - 32)) & 0xFFFFFF
+        if a and not (nb == 56 and a < 128):
+            hist(f, hx(v ^ a, nb))
     # bookkeeping: a failing frame must not tick the expiry sweep either -- stale rows (older than -d) stay while only
     # failing frames arrive, however many
     for i in range(6 if tier == "quick" else 60):
